@@ -10,6 +10,7 @@ harness over the configuration domain and the three kinds of input file.
 import math
 import os
 import shutil
+import subprocess
 import struct
 import sys
 
@@ -41,7 +42,11 @@ def natural_bunch_length(V=1e6, H=50.0, f0=None, E0=1.3e9):
 
 
 IMP_FILES = ["none", "short", "long", "empty", "garbage", "odd", "one", "nan", "header"]
-START_FILES = ["txt-ok", "txt-outside", "txt-empty", "txt-garbage", "h5-same", "h5-othersize", "h5-othersize", "h5-missing"]
+START_FILES = ["txt-ok", "txt-outside", "txt-empty", "txt-garbage", "h5-same", "h5-othersize", "h5-othersize", "h5-missing",
+               # legal HDF5 files that are not results files (harness/h5make): no record at all, unusual rank, no data set,
+               # two bunches, another storage type, not HDF5 at all
+               "h5x-empty3", "h5x-empty4", "h5x-scalar", "h5x-rank2", "h5x-rank5", "h5x-nodata", "h5x-multibunch",
+               "h5x-double", "h5x-garbage"]
 TRACK_FILES = ["none", "inside", "edge", "outside", "garbage", "empty", "many"]
 
 
@@ -196,11 +201,24 @@ def classify(r):
     return None
 
 
+def make_odd_start(path, kind, n):
+    if kind == "garbage":
+        with open(path, "wb") as f:
+            f.write(b"\x89HDF\r\n\x1a\n" + bytes(range(256)) * 3)
+        return
+    p = subprocess.run([lib.build_h5make(), path, kind, str(n)], stdout=subprocess.PIPE, stderr=subprocess.STDOUT, text=True)
+    if p.returncode != 0:
+        raise RuntimeError("h5make failed: " + p.stdout[-300:])
+
+
 def run_one(exe, cfg, rng, h5=None):
     d = prog.scratch()
     try:
         a = args_of(cfg, d, rng)
-        if cfg["start"].startswith("h5"):
+        if cfg["start"].startswith("h5x-"):
+            make_odd_start(os.path.join(d, "start.h5"), cfg["start"][4:], cfg["n"])
+            a += ["-i", "start.h5"]
+        elif cfg["start"].startswith("h5"):
             # a results file of a (possibly different) grid as start distribution
             n0 = cfg["n"] if cfg["start"] == "h5-same" else rng.choice([cfg["n"] // 2, cfg["n"] + 7, cfg["n"] * 2])
             a0 = ["--config", "/dev/null", "--cldev", "0", "-s", str(max(n0, 4)), "-N", "8", "-T", "0.1", "-n", "1",
@@ -413,7 +431,10 @@ def explore_binary(chk, exe, h5, count, tag, workers=8):
         d = prog.scratch()
         try:
             a = args_of(cfg, d, r)
-            if cfg["start"].startswith("h5"):
+            if cfg["start"].startswith("h5x-"):
+                make_odd_start(os.path.join(d, "start.h5"), cfg["start"][4:], cfg["n"])
+                a += ["-i", "start.h5"]
+            elif cfg["start"].startswith("h5"):
                 n0 = cfg["n"] if cfg["start"] == "h5-same" else r.choice([max(4, cfg["n"] // 2), cfg["n"] + 7, cfg["n"] * 2])
                 a0 = ["--config", "/dev/null", "--cldev", "0", "-s", str(n0), "-N", "8", "-T", "0.1", "-n", "1",
                       "--SavePhaseSpace", "1", "-o", "start.h5"]
@@ -471,7 +492,17 @@ def run(chk):
     quick = chk.tier == "quick"
     recs, optexts, mism, drift, san, afails = explore_api(chk, harness, 48 if quick else 900, "main")
     jobs, bfails, stats, compared = explore_binary(chk, exe, h5, 64 if quick else 900, "main", workers=8 if quick else 14)
-    chk.cov["evaluations"] = len(recs) + len(jobs)
+    # every kind of unusual start file once per run (the random mix above reaches each only now and then)
+    odd = []
+    for i, kind in enumerate(k for k in START_FILES if k.startswith("h5x-")):
+        cfg = gen_config(lib.Rng(chk.seed, "C17/oddstart/%d" % i), 3 * i + 1, True)
+        cfg.update(start=kind, cur=[0.001], spacing=None, impfile="none", track="none")
+        a, f, r = run_one(exe, cfg, lib.Rng(chk.seed, "C17/oddstart/run/%d" % i), h5)
+        odd.append(kind)
+        if f:
+            bfails.append((9000 + i, cfg, a, "start file '%s': %s" % (kind, f)))
+    stats["odd_start_files"] = odd
+    chk.cov["evaluations"] = len(recs) + len(jobs) + len(odd)
     chk.cov["distinct_nontrivial"] = len({r["optext"] for r in recs}) + len({repr(j[1]) for j in jobs})
     chk.cov["rule"] = ("(a) API harness under ASan+UBSan+float-cast-overflow+_GLIBCXX_ASSERTIONS: kick maps with displacements "
                        "below/beyond the grid, >= 2^32, NaN, inf; sums of impedance tables of unequal length; impedance files "
